@@ -272,6 +272,14 @@ def run(ctx):
                     isinstance(app[0].args[0], ast.Constant) else None
                 if app:
                     lst = dotted(app[0].func.value)
+    # `x = mems.get(KEY, 0)`: zero without a report (acceptable only where the
+    # documentation asks for silence)
+    for st_ in ast.walk(vm.node):
+        if isinstance(st_, ast.Assign) and isinstance(st_.value, ast.Call) \
+                and isinstance(st_.value.func, ast.Attribute) and st_.value.func.attr == "get" \
+                and len(st_.value.args) == 2 and isinstance(st_.value.args[1], ast.Constant) \
+                and st_.value.args[1].value == 0 and dotted(st_.targets[0]) not in got_names:
+            got_names[dotted(st_.targets[0])] = None
     for var, nm in want_names.items():
         key = f"missing:{var}"
         if var in got_names and got_names[var] == nm:
